@@ -11,6 +11,12 @@ C13_OPS = ['prefix_increment', 'prefix_decrement', 'postfix_increment', 'postfix
            'less_equal', 'greater_than', 'greater_equal', 'equality', 'inequality']
 
 PROPS = {
+    'C10': {
+        'title': 'Lexing is lossless and numeric literals are exact',
+        'v_units': ['lexer_digits'],
+        'k_groups': [],
+        'design_ref': 'DESIGN.md §3 C10',
+    },
     'C11': {
         'title': 'Conditional compilation selects exactly the branches C semantics select',
         'v_units': ['cond_chain'],
